@@ -94,6 +94,17 @@ void *libconfig_realloc(void *ptr, size_t size)
 
 /* ------------------------------------------------------------------------- */
 
+char *libconfig_strdup(const char *s)
+{
+  char *ptr = strdup(s);
+  if(!ptr)
+    libconfig_fatal_error(__libconfig_malloc_failure_message);
+
+  return(ptr);
+}
+
+/* ------------------------------------------------------------------------- */
+
 long long libconfig_parse_integer(const char *s, int *ok)
 {
   long long llval;
